@@ -365,3 +365,88 @@ def corpus():
         "Parent": o(child_item={"type": "object", "properties": {"z": {"type": "string"}}}),
         "ParentChild": o(item={"type": "object", "properties": {"y": {"type": "integer"}}}), "Other": o(p=_ref("Parent"), q=_ref("ParentChild"))}}}))
     return out
+
+
+# ================================================================ C12 order-sensitive extras (ADDED functions; gen_document()/corpus() are unchanged)
+SUFFIX_FAMILIES = [["Cat", "WildCat"], ["Box", "ToolBox"], ["Unit", "BaseUnit", "AbstractBaseUnit"], ["Ship", "AirShip", "CargoAirShip"]]
+TWIN_VALUES = [["open", "closed", "pending"], ["new", "paid", "sent", "lost"], ["up", "down"]]
+
+
+def add_suffix_family(schemas: dict, rng: random.Random, family=None, youngest_first=True):
+    """allOf chain whose child's class name is a SUFFIX of its parent's schema name (Cat <- WildCat, Unit <- BaseUnit <- AbstractBaseUnit),
+    plus a dependant of the youngest child.  A recursion test that looks at a string suffix instead of the last path segment finalises the child
+    as self-recursive whenever it is declared before its parent."""
+    fam = family or rng.choice([f for f in SUFFIX_FAMILIES if not any(n in schemas for n in f)] or [None])
+    if not fam:
+        return None
+    new = {}
+    for i, name in enumerate(fam):
+        own = {"type": "object", "properties": {f"{name.lower()}_own": {"type": "string"}, f"{name.lower()}_num": {"type": "integer"}}}
+        new[name] = {"allOf": [_ref(fam[i + 1]), own]} if i + 1 < len(fam) else own
+    keeper = fam[0] + "Keeper"
+    new[keeper] = {"type": "object", "properties": {"kept": _ref(fam[0]), "all_kept": {"type": "array", "items": _ref(fam[0])}}}
+    order = list(new) if youngest_first else list(reversed(list(new)))
+    for k in order:
+        schemas[k] = new[k]
+    return fam
+
+
+def add_twin_enums(doc: dict, rng: random.Random, kind="string", where=("schemas", "parameters")):
+    """Two inline enums that resolve to ONE class name and list the same values in different orders:
+    schemas  : Dog.house_status and DogHouse.status            -> DogHouseStatus
+    parameters: query `status` of operation list_orders and query `orders_status` of operation `list` -> ListOrdersStatus."""
+    vals = list(rng.choice(TWIN_VALUES)) if kind == "string" else sorted(rng.sample(range(1, 9), 3))
+    other = list(reversed(vals))
+    e = lambda v: {"type": kind, "enum": list(v)}
+    if "schemas" in where:
+        sch = doc.setdefault("components", {}).setdefault("schemas", {})
+        if "Dog" not in sch and "DogHouse" not in sch:
+            sch["Dog"] = {"type": "object", "properties": {"house_status": e(vals), "dog_name": {"type": "string"}}}
+            sch["DogHouse"] = {"type": "object", "properties": {"status": e(other), "size": {"type": "integer"}}}
+    if "parameters" in where:
+        ok = {"200": {"description": "ok", "content": {"application/json": {"schema": {"type": "string"}}}}}
+        paths = doc.setdefault("paths", {})
+        if "/orders" not in paths and "/everything" not in paths:
+            paths["/orders"] = {"get": {"operationId": "list_orders", "tags": ["orders"], "parameters": [{"name": "status", "in": "query", "schema": e(vals)}], "responses": ok}}
+            paths["/everything"] = {"get": {"operationId": "list", "tags": ["orders"], "parameters": [{"name": "orders_status", "in": "query", "schema": e(other)}], "responses": ok}}
+    return doc
+
+
+def gen_document_order(rng: random.Random, pressure=False):
+    """gen_document + suffix-named allOf families + same-class-name twin STRING enums (schemas and parameters), declaration order re-shuffled."""
+    doc, feats = gen_document(rng, pressure=pressure)
+    doc = copy.deepcopy(doc)
+    feats = list(feats)
+    sch = doc["components"]["schemas"]
+    if rng.random() < 0.8:
+        fam = add_suffix_family(sch, rng)
+        if fam:
+            feats.append("suffix-allof-" + str(len(fam)))
+    if rng.random() < 0.7:
+        add_twin_enums(doc, rng, "string", where=rng.choice([("schemas",), ("parameters",), ("schemas", "parameters")]))
+        feats.append("twin-string-enums")
+    doc["components"]["schemas"] = _shuffled(sch, rng)
+    doc["paths"] = _shuffled(doc["paths"], rng)
+    return doc, sorted(feats)
+
+
+def corpus_order():
+    """Small fixed documents for which ALL permutations of components.schemas are tried."""
+    base = lambda sch, paths=None: {"openapi": "3.1.0", "info": {"title": "t", "version": "1"}, "paths": paths or {}, "components": {"schemas": sch}}
+    out = []
+    rng = random.Random(0)
+    s = {}
+    add_suffix_family(s, rng, ["Cat", "WildCat"])
+    out.append(("suffix-pair", base(s)))
+    s = {}
+    add_suffix_family(s, rng, ["Unit", "BaseUnit", "AbstractBaseUnit"])
+    out.append(("suffix-chain", base(s)))
+    s = {}
+    add_suffix_family(s, rng, ["Pet", "NewPet"])
+    s.pop("PetKeeper")
+    s["Owner"] = {"type": "object", "properties": {"pet": _ref("Pet"), "old": _ref("NewPet")}}
+    out.append(("suffix-pair-2", base(s)))
+    out.append(("twin-string-enums", add_twin_enums(base({"Z": {"type": "object", "properties": {"z": {"type": "string"}}}}), random.Random(1), "string")))
+    # int twins: witness of the known finding int_enum_twin_order (int_enum.py.jinja emits the members in insertion order)
+    out.append(("twin-int-enums", add_twin_enums(base({"Z": {"type": "object", "properties": {"z": {"type": "string"}}}}), random.Random(2), "integer")))
+    return out
